@@ -92,23 +92,39 @@ Lemma next_term_spec st sp : o_pos st = pos_after (sg_p0 gg) (sp_stream sp) ->
 Proof. intros H. unfold next_term, pad_to_term_end, gO, gg, g, sgeom_of in *. cbn [cg_tlen sg_tlen sg_p0] in *. rewrite H.
   destruct (_ =? 0); rewrite pos_after_app; cbn [span_of item_len]; lia. Qed.
 
+(* MaxPositionExceeded: oracle and abstract machine follow the same report of position() *)
+Lemma orel_after_max st (s s' : sys F) sp q :
+  orel st s sp -> o_pend st = None -> sy_img s' = sy_img s ->
+  (ps_closed (fl_pub F (sy_pub s')) = true -> ps_closed (fl_pub F (sy_pub s)) = true) ->
+  orel (after_max st q) s'
+       (mkSpec (sp_stream sp ++ pad_to_reported gg (sp_stream sp) q) (sp_open sp) (sp_acc sp) (sp_del sp) (sp_ok sp)).
+Proof. intros [Opos Opend Osub Oclosed (dq & Oacc & Odel & Oq)] Hpend Himg Hcl.
+  assert (Hsame : orel st s' (mkSpec (sp_stream sp ++ []) (sp_open sp) (sp_acc sp) (sp_del sp) (sp_ok sp))).
+  { rewrite app_nil_r. constructor; cbn [sp_stream sp_open sp_acc sp_del]; try congruence;
+      try (intros Hc; apply Oclosed, Hcl, Hc); try (exists dq; auto); auto. }
+  unfold after_max, pad_to_reported. rewrite Hpend. cbn [none_b andb]. rewrite <- Opos.
+  destruct q as [p| | | |]; try exact Hsame.
+  destruct (o_pos st <? p) eqn:E; [|exact Hsame].
+  constructor; cbn [o_pos o_pend o_queue o_sub o_closed sp_stream sp_open sp_acc sp_del];
+    try (rewrite pos_after_app; cbn [span_of item_len]; lia); try congruence;
+    try (intros Hc; apply Oclosed, Hcl, Hc); try (exists dq; auto); auto. Qed.
+
 Lemma judge_step st s sp o : srep s sp -> orel st s sp -> env_ok F m s o = true ->
   exists st', judge gO st o (sys_obs F m (fst (sys_step F m rv s o)) (snd (sys_step F m rv s o))) = Some st' /\
-    orel st' (fst (sys_step F m rv s o)) (spec_step gg sp (event_of (fl_pub F (sy_pub s)) o (snd (sys_step F m rv s o)))).
+    orel st' (fst (sys_step F m rv s o)) (spec_step gg sp (step_event F m rv s o)).
 Proof. intros Hrep Hor Henv.
   pose proof (sys_step_rep tlen mtu ses n0 off0 Hn0 Hoff0 Hoff0al Hmtu32 F pinv FK m rv s sp o Hrep Henv) as Hrep'.
-  fold gg in Hrep'.
+  fold gg in Hrep'. unfold step_event in *.
   pose proof (rep_sub_facts tlen mtu ses n0 off0 Hoff0 Hoff0al F pinv _ _ Hrep') as (Hsub' & Hsal' & Hopen').
   pose proof (rep_ok tlen mtu ses n0 off0 Hoff0al F pinv _ _ Hrep') as (Hok' & Hal' & Hend').
   fold gg in Hsub', Hend'.
   pose proof (rep_open_iff tlen mtu ses n0 off0 F pinv _ _ Hrep) as Hoi.
   destruct Hor as [Opos Opend Osub Oclosed (dq & Oacc & Odel & Oq)].
-  assert (Hlast : l_count (sys_log s) < two31 - 1) by (unfold env_ok in Henv; lia).
   destruct o.
   - (* offer *)
-    pose proof (step_shape tlen mtu ses n0 off0 Hn0 Hoff0 Hmtu32 F pinv FK m rv s sp _ Hrep Henv) as Hsh. cbv zeta in Hsh.
-    destruct (sys_step F m rv s (SOffer k len)) as [s' [[r ds] ms]]. destruct Hsh as (-> & -> & Himg & Hshape & Hcl & Hsame).
-    cbn [fst snd event_of spec_step sys_obs map] in *. unfold image_position. rewrite Hopen'.
+    pose proof (step_shape tlen mtu ses n0 off0 Hmtu32 F pinv FK m rv s sp _ Hrep Henv) as Hsh. cbv zeta in Hsh.
+    destruct (sys_step F m rv s (SOffer k len)) as [s' [[r ds] ms]]. destruct Hsh as (-> & -> & Himg & Hshape & Hcl).
+    cbn [fst snd event_of spec_step sys_obs map sy_pub] in *. unfold image_position. rewrite Hopen'.
     assert (Hlen : 0 <= len) by (unfold env_ok, append_ok in Henv; lia).
     assert (Hnopen : sp_open sp = None) by (apply Hoi; unfold env_ok, append_ok in Henv; lia).
     cbn [judge nil_b]. rewrite Himg, <- Osub, Z.eqb_refl. cbn [andb].
@@ -134,16 +150,14 @@ Proof. intros Hrep Hor Henv.
         -- apply Forall_app. split; [exact Oq|]. constructor; [exact Hlen|constructor].
     + cbn [on_result judge_append]. eexists. split; [reflexivity|].
       constructor; cbn [o_pos o_pend o_queue o_sub o_closed sp_stream sp_open sp_acc sp_del]; try (apply next_term_spec; exact Opos); try (rewrite Himg; exact Osub); try (intros Hc; apply Oclosed, Hcl, Hc); try (exists dq; auto); auto.
-    + rewrite (on_result_refuse tlen mtu n0 off0) by assumption.
-      assert (Hj : judge_append gO st (Err e) (fl_position F m (sy_pub s')) (c_req gO len) (fun p => mkOst p (o_pend st) (o_queue st ++ [(k, len, p)]) (o_sub st) (o_closed st)) = Some st).
-      { unfold judge_append. destruct e; try discriminate; try reflexivity.
-        rewrite (Hsame _ eq_refl eq_refl), (rep_pubpos tlen mtu ses n0 off0 F pinv FK m _ _ Hrep Hnopen). fold gg. rewrite <- Opos.
-        unfold after_max. destruct (ps_closed _); [reflexivity|]. assert (E : (o_pos st <? o_pos st) = false) by lia. rewrite E, andb_false_r. reflexivity. }
-      rewrite Hj. eexists. split; [reflexivity|]. constructor; try (apply next_term_spec; exact Opos); try (rewrite Himg; exact Osub); try (intros Hc; apply Oclosed, Hcl, Hc); try (exists dq; auto); auto.
+    + destruct e; try discriminate He; cbn [on_result judge_append refusal].
+      all: try (eexists; split; [reflexivity|]; constructor; try (rewrite Himg; exact Osub); try (intros Hc; apply Oclosed, Hcl, Hc); try (exists dq; auto); auto; fail).
+      eexists. split; [reflexivity|].
+      apply (orel_after_max st s s' sp); [constructor; eauto| congruence | exact Himg | exact Hcl].
   - (* claim *)
-    pose proof (step_shape tlen mtu ses n0 off0 Hn0 Hoff0 Hmtu32 F pinv FK m rv s sp _ Hrep Henv) as Hsh. cbv zeta in Hsh.
-    destruct (sys_step F m rv s (SClaim len)) as [s' [[r ds] ms]]. destruct Hsh as (-> & -> & Himg & Hshape & Hcl & Hsame).
-    cbn [fst snd event_of spec_step sys_obs map] in *. unfold image_position. rewrite Hopen'.
+    pose proof (step_shape tlen mtu ses n0 off0 Hmtu32 F pinv FK m rv s sp _ Hrep Henv) as Hsh. cbv zeta in Hsh.
+    destruct (sys_step F m rv s (SClaim len)) as [s' [[r ds] ms]]. destruct Hsh as (-> & -> & Himg & Hshape & Hcl).
+    cbn [fst snd event_of spec_step sys_obs map sy_pub] in *. unfold image_position. rewrite Hopen'.
     assert (Hlen : 0 <= len) by (unfold env_ok, append_ok in Henv; lia).
     assert (Hnopen : sp_open sp = None) by (apply Hoi; unfold env_ok, append_ok in Henv; lia).
     pose proof (rep_ok tlen mtu ses n0 off0 Hoff0al F pinv _ _ Hrep) as (_ & _ & Hend).
@@ -159,17 +173,15 @@ Proof. intros Hrep Hor Henv.
       rewrite E. eexists. split; [reflexivity|]. constructor; cbn [o_pos o_pend o_queue o_sub o_closed sp_stream sp_open sp_acc sp_del]; try (apply next_term_spec; exact Opos); try (rewrite Himg; exact Osub); try (intros Hc; apply Oclosed, Hcl, Hc); try (exists dq; auto); auto.
     + cbn [on_result judge_append]. eexists. split; [reflexivity|].
       constructor; cbn [o_pos o_pend o_queue o_sub o_closed sp_stream sp_open sp_acc sp_del]; try (apply next_term_spec; exact Opos); try (rewrite Himg; exact Osub); try (intros Hc; apply Oclosed, Hcl, Hc); try (exists dq; auto); auto.
-    + rewrite (on_result_refuse tlen mtu n0 off0) by assumption.
-      assert (Hj : judge_append gO st (Err e) (fl_position F m (sy_pub s')) (align (32 + len) 32) (fun p => mkOst (o_pos st) (Some (len, p)) (o_queue st) (o_sub st) (o_closed st)) = Some st).
-      { unfold judge_append. destruct e; try discriminate; try reflexivity.
-        rewrite (Hsame _ eq_refl eq_refl), (rep_pubpos tlen mtu ses n0 off0 F pinv FK m _ _ Hrep Hnopen). fold gg. rewrite <- Opos.
-        unfold after_max. destruct (ps_closed _); [reflexivity|]. assert (E : (o_pos st <? o_pos st) = false) by lia. rewrite E, andb_false_r. reflexivity. }
-      rewrite Hj. eexists. split; [reflexivity|]. constructor; try (apply next_term_spec; exact Opos); try (rewrite Himg; exact Osub); try (intros Hc; apply Oclosed, Hcl, Hc); try (exists dq; auto); auto.
+    + destruct e; try discriminate He; cbn [on_result judge_append refusal].
+      all: try (eexists; split; [reflexivity|]; constructor; try (rewrite Himg; exact Osub); try (intros Hc; apply Oclosed, Hcl, Hc); try (exists dq; auto); auto; fail).
+      eexists. split; [reflexivity|].
+      apply (orel_after_max st s s' sp); [constructor; eauto| congruence | exact Himg | exact Hcl].
   - (* commit *)
-    pose proof (step_shape tlen mtu ses n0 off0 Hn0 Hoff0 Hmtu32 F pinv FK m rv s sp _ Hrep Henv) as Hsh. cbv zeta in Hsh.
-    destruct (sys_step F m rv s (SCommit k)) as [s' [[r ds] ms]]. destruct Hsh as (-> & -> & Himg & Hshape & Hcl & Hsame).
+    pose proof (step_shape tlen mtu ses n0 off0 Hmtu32 F pinv FK m rv s sp _ Hrep Henv) as Hsh. cbv zeta in Hsh.
+    destruct (sys_step F m rv s (SCommit k)) as [s' [[r ds] ms]]. destruct Hsh as (-> & -> & Himg & Hshape & Hcl).
     cbn [result_shape] in Hshape. subst r.
-    cbn [fst snd event_of spec_step sys_obs map] in *. unfold image_position. rewrite Hopen'.
+    cbn [fst snd event_of spec_step sys_obs map sy_pub] in *. unfold image_position. rewrite Hopen'.
     assert (Hisopen : sy_open s = true) by (unfold env_ok in Henv; lia).
     destruct (sp_open sp) as [[len p]|] eqn:Eopen; [|destruct Hoi as [_ H2]; specialize (H2 eq_refl); congruence].
     destruct (rep_open_pos tlen mtu ses n0 off0 F pinv _ _ len p Hrep Eopen) as (Hp & Hclen & Hlen). fold gg in Hp.
@@ -182,10 +194,10 @@ Proof. intros Hrep Hor Henv.
            [rewrite Oacc, app_assoc, !map_app; reflexivity | apply Forall_app; split; [exact Oq|]; constructor; [exact Hlen|constructor]]);
       auto.
   - (* abort *)
-    pose proof (step_shape tlen mtu ses n0 off0 Hn0 Hoff0 Hmtu32 F pinv FK m rv s sp _ Hrep Henv) as Hsh. cbv zeta in Hsh.
-    destruct (sys_step F m rv s SAbort) as [s' [[r ds] ms]]. destruct Hsh as (-> & -> & Himg & Hshape & Hcl & Hsame).
+    pose proof (step_shape tlen mtu ses n0 off0 Hmtu32 F pinv FK m rv s sp _ Hrep Henv) as Hsh. cbv zeta in Hsh.
+    destruct (sys_step F m rv s SAbort) as [s' [[r ds] ms]]. destruct Hsh as (-> & -> & Himg & Hshape & Hcl).
     cbn [result_shape] in Hshape. subst r.
-    cbn [fst snd event_of spec_step sys_obs map] in *. unfold image_position. rewrite Hopen'.
+    cbn [fst snd event_of spec_step sys_obs map sy_pub] in *. unfold image_position. rewrite Hopen'.
     assert (Hisopen : sy_open s = true) by (unfold env_ok in Henv; lia).
     destruct (sp_open sp) as [[len p]|] eqn:Eopen; [|destruct Hoi as [_ H2]; specialize (H2 eq_refl); congruence].
     destruct (rep_open_pos tlen mtu ses n0 off0 F pinv _ _ len p Hrep Eopen) as (Hp & Hclen & Hlen). fold gg in Hp.
@@ -193,8 +205,8 @@ Proof. intros Hrep Hor Henv.
     eexists. split; [reflexivity|].
     constructor; cbn [o_pos o_pend o_queue o_sub o_closed sp_stream sp_open sp_acc sp_del]; try (rewrite pos_after_app; cbn [span_of item_len]; lia); try (apply next_term_spec; exact Opos); try (rewrite Himg; exact Osub); try (intros Hc; apply Oclosed, Hcl, Hc); try (exists dq; auto); auto.
   - (* poll *)
-    pose proof (poll_shape tlen mtu ses n0 off0 Hn0 Hoff0 F pinv FK m rv s sp limit Hrep Hlast) as Hsh.
-    pose proof (poll_drained tlen mtu ses n0 off0 Hn0 Hoff0 F pinv FK m rv s sp limit Hrep Hlast) as Hdr.
+    pose proof (poll_shape tlen mtu ses n0 off0 Hn0 Hoff0 F pinv FK m rv s sp limit Hrep) as Hsh.
+    pose proof (poll_drained tlen mtu ses n0 off0 Hn0 Hoff0 F pinv FK m rv s sp limit Hrep) as Hdr.
     pose proof (rep_prefix tlen mtu ses n0 off0 F pinv _ _ Hrep') as Hpre.
     destruct (sys_step F m rv s (SPoll limit)) as [s' [[r ds] ms]]. destruct Hsh as (-> & Hses & Hmono & Hpub & Hop).
     cbn [fst snd event_of spec_step sys_obs sp_del sp_acc sp_stream sp_open] in *. unfold image_position. rewrite Hopen'.
@@ -225,31 +237,31 @@ Proof. intros Hrep Hor Henv.
       * clear -Oq. revert Oq. generalize (o_queue st). induction (length ms); intros q Hq; cbn [skipn]; [assumption|].
         destruct q; [constructor|]. inversion Hq; subst. apply IHn; assumption.
   - (* set limit *)
-    pose proof (step_shape tlen mtu ses n0 off0 Hn0 Hoff0 Hmtu32 F pinv FK m rv s sp _ Hrep Henv) as Hsh. cbv zeta in Hsh.
-    destruct (sys_step F m rv s (SSetLimit v)) as [s' [[r ds] ms]]. destruct Hsh as (-> & -> & Himg & Hshape & Hcl & Hsame).
+    pose proof (step_shape tlen mtu ses n0 off0 Hmtu32 F pinv FK m rv s sp _ Hrep Henv) as Hsh. cbv zeta in Hsh.
+    destruct (sys_step F m rv s (SSetLimit v)) as [s' [[r ds] ms]]. destruct Hsh as (-> & -> & Himg & Hshape & Hcl).
     cbn [result_shape] in Hshape. subst r.
-    cbn [fst snd event_of spec_step sys_obs map] in *. unfold image_position. rewrite Hopen'.
+    cbn [fst snd event_of spec_step sys_obs map sy_pub] in *. unfold image_position. rewrite Hopen'.
     cbn [judge nil_b is_ok0]. rewrite Himg, <- Osub, Z.eqb_refl. cbn [andb].
     eexists. split; [reflexivity|]. constructor; try (apply next_term_spec; exact Opos); try (rewrite Himg; exact Osub); try (intros Hc; apply Oclosed, Hcl, Hc); try (exists dq; auto); auto.
   - (* clean *)
-    pose proof (step_shape tlen mtu ses n0 off0 Hn0 Hoff0 Hmtu32 F pinv FK m rv s sp _ Hrep Henv) as Hsh. cbv zeta in Hsh.
-    destruct (sys_step F m rv s (SClean i)) as [s' [[r ds] ms]]. destruct Hsh as (-> & -> & Himg & Hshape & Hcl & Hsame).
+    pose proof (step_shape tlen mtu ses n0 off0 Hmtu32 F pinv FK m rv s sp _ Hrep Henv) as Hsh. cbv zeta in Hsh.
+    destruct (sys_step F m rv s (SClean i)) as [s' [[r ds] ms]]. destruct Hsh as (-> & -> & Himg & Hshape & Hcl).
     cbn [result_shape] in Hshape. subst r.
-    cbn [fst snd event_of spec_step sys_obs map] in *. unfold image_position. rewrite Hopen'.
+    cbn [fst snd event_of spec_step sys_obs map sy_pub] in *. unfold image_position. rewrite Hopen'.
     cbn [judge nil_b is_ok0]. rewrite Himg, <- Osub, Z.eqb_refl. cbn [andb].
     eexists. split; [reflexivity|]. constructor; try (apply next_term_spec; exact Opos); try (rewrite Himg; exact Osub); try (intros Hc; apply Oclosed, Hcl, Hc); try (exists dq; auto); auto.
   - (* connected *)
-    pose proof (step_shape tlen mtu ses n0 off0 Hn0 Hoff0 Hmtu32 F pinv FK m rv s sp _ Hrep Henv) as Hsh. cbv zeta in Hsh.
-    destruct (sys_step F m rv s (SSetConnected b)) as [s' [[r ds] ms]]. destruct Hsh as (-> & -> & Himg & Hshape & Hcl & Hsame).
+    pose proof (step_shape tlen mtu ses n0 off0 Hmtu32 F pinv FK m rv s sp _ Hrep Henv) as Hsh. cbv zeta in Hsh.
+    destruct (sys_step F m rv s (SSetConnected b)) as [s' [[r ds] ms]]. destruct Hsh as (-> & -> & Himg & Hshape & Hcl).
     cbn [result_shape] in Hshape. subst r.
-    cbn [fst snd event_of spec_step sys_obs map] in *. unfold image_position. rewrite Hopen'.
+    cbn [fst snd event_of spec_step sys_obs map sy_pub] in *. unfold image_position. rewrite Hopen'.
     cbn [judge nil_b is_ok0]. rewrite Himg, <- Osub, Z.eqb_refl. cbn [andb].
     eexists. split; [reflexivity|]. constructor; try (apply next_term_spec; exact Opos); try (rewrite Himg; exact Osub); try (intros Hc; apply Oclosed, Hcl, Hc); try (exists dq; auto); auto.
   - (* close *)
-    pose proof (step_shape tlen mtu ses n0 off0 Hn0 Hoff0 Hmtu32 F pinv FK m rv s sp _ Hrep Henv) as Hsh. cbv zeta in Hsh.
-    destruct (sys_step F m rv s SClose) as [s' [[r ds] ms]]. destruct Hsh as (-> & -> & Himg & Hshape & Hcl & Hsame).
+    pose proof (step_shape tlen mtu ses n0 off0 Hmtu32 F pinv FK m rv s sp _ Hrep Henv) as Hsh. cbv zeta in Hsh.
+    destruct (sys_step F m rv s SClose) as [s' [[r ds] ms]]. destruct Hsh as (-> & -> & Himg & Hshape & Hcl).
     cbn [result_shape] in Hshape. subst r.
-    cbn [fst snd event_of spec_step sys_obs map] in *. unfold image_position. rewrite Hopen'.
+    cbn [fst snd event_of spec_step sys_obs map sy_pub] in *. unfold image_position. rewrite Hopen'.
     cbn [judge nil_b is_ok0]. rewrite Himg, <- Osub, Z.eqb_refl. cbn [andb].
     eexists. split; [reflexivity|]. constructor; cbn [o_pos o_pend o_queue o_sub o_closed]; try (apply next_term_spec; exact Opos); try (rewrite Himg; exact Osub); try (intros Hc; apply Oclosed, Hcl, Hc); try (exists dq; auto); auto.
 Qed.
